@@ -236,7 +236,38 @@ func (re *rangeEngine) def(v ssa.Value, at *ssa.BasicBlock) sival {
 					return *out
 				}
 			}
-			return topIval // field / element loads: unconstrained data
+			// element / field of a local aggregate: hull of everything stored into it
+			// (element- and flow-insensitive, hence never grounds for a violation)
+			if base := localAggregate(x.X); base != nil {
+				out := unkIval
+				n := 0
+				for _, ref := range *base.Referrers() {
+					switch a := ref.(type) {
+					case *ssa.IndexAddr, *ssa.FieldAddr:
+						for _, r2 := range *a.(ssa.Value).Referrers() {
+							if st, ok := r2.(*ssa.Store); ok && st.Addr == a.(ssa.Value) {
+								iv := re.at(st.Val, st.Block())
+								if n == 0 {
+									out = iv
+								} else {
+									out = hull(out, iv)
+								}
+								n++
+							}
+						}
+					case *ssa.Store:
+						if a.Addr == ssa.Value(base) {
+							return unkIval // whole-aggregate copy
+						}
+					}
+				}
+				if n == 0 {
+					return unkIval
+				}
+				out.unk = true
+				return out
+			}
+			return topIval // field / element loads of non-local memory: unconstrained data
 		}
 		return unkIval
 	case *ssa.Parameter:
@@ -461,4 +492,24 @@ func ruleIndexRange(w *World, r *Report) {
 	if n < 2 {
 		r.add("RANGE", fn+" / outputs", w.Pos(f.Pos()), Info, "could not locate the printed x and y indices")
 	}
+}
+
+// localAggregate: addr is &a[i] / &a.f of an aggregate allocated in this function.
+func localAggregate(addr ssa.Value) *ssa.Alloc {
+	switch a := addr.(type) {
+	case *ssa.IndexAddr:
+		if al, ok := a.X.(*ssa.Alloc); ok {
+			return al
+		}
+		if sl, ok := a.X.(*ssa.Slice); ok {
+			if al, ok := sl.X.(*ssa.Alloc); ok {
+				return al
+			}
+		}
+	case *ssa.FieldAddr:
+		if al, ok := a.X.(*ssa.Alloc); ok {
+			return al
+		}
+	}
+	return nil
 }
